@@ -1,19 +1,19 @@
 SPECIFICATION Spec
-CONSTANTS MaxPre = 2 MaxN = 4
-  PreAlphabet <- AlphaSmall
-  Accs <- AccsSmall
-  Posts <- PostsSmall
-  FlowKinds = {"bare", "pairs", "ctx"}
-  Drivers = {"fill"}
+CONSTANTS MaxPre = 2 MaxN = 2
+  PreAlphabet <- AlphaGuard
+  Accs <- AccsGuard
+  Posts <- PostsGuard
+  FlowKinds = {"ctx"}
+  Drivers = {"run", "fill", "persist", "split"}
   Places = {"alone"}
   StopFlag = "per_branch"
   CopyMode = "per_branch"
   AdapterHides = TRUE
-  VarCopy = "per_value"
+  VarCopy = "per_flow"
   Bufs <- BufOne
 INVARIANT DriversAgree
 INVARIANT FillReaches
 INVARIANT StopSound
 INVARIANT ComputeOnce
-INVARIANT Emitted
+INVARIANT BufBound
 CHECK_DEADLOCK FALSE
